@@ -123,6 +123,9 @@ type FV struct {
 	curTags []string
 	coverDone map[string]bool
 	query  []modelQuery
+	frame  *frameSet
+	nTouch int
+	nQuick int
 }
 
 func (fv *FV) fresh(prefix, sort string) string {
@@ -240,6 +243,7 @@ func (fv *FV) updPath(old string, path []step, v string) string {
 }
 
 func (fv *FV) store(st *State, l *Loc, v string) {
+	fv.touch(st, l.heap, l.ref, "store")
 	h := fv.heap(st, l.heap)
 	var nv string
 	if len(l.path) == 0 {
